@@ -1,5 +1,5 @@
 (* C40: facts about the sorting / dedup / position helpers of the model. *)
-From PV Require Import Lib.Base C40.Model.
+From PV Require Import Lib.Base C40.Model C40.Spec.
 From Coq Require Import Sorting.Sorted Relations.Relation_Definitions Classes.RelationClasses.
 Open Scope Z_scope.
 
@@ -40,8 +40,6 @@ Proof. induction l as [|x r IH]; cbn; [constructor|apply insert_sorted_Sorted; e
 End Sort.
 
 (* ---------- inputs ---------- *)
-Definition input_lt (a b : input) : Prop := fst a < fst b \/ (fst a = fst b /\ snd a < snd b).
-
 Lemma input_eqb_eq a b : input_eqb a b = true <-> a = b.
 Proof.
   destruct a as [h i], b as [h' i']. unfold input_eqb; cbn. split.
